@@ -233,7 +233,7 @@ def sig_of(J, lp):
     return R.digest(out)
 
 
-def run_world(plan, lp, sample_rate=None, rng_seam=None):
+def run_world(plan, lp, sample_rate=None, rng_seam=None, session=None):
     """Execute the schedule under the real tracer. Returns (journal copy, logger, residue frames info)."""
     from monkeytype.tracing import trace_calls
 
@@ -248,7 +248,8 @@ def run_world(plan, lp, sample_rate=None, rng_seam=None):
     flt, admitted = make_filter(plan, lp)
     residue = None
     old = sys.getprofile()
-    with trace_calls(logger, plan["k"], flt, sample_rate):
+    cm = session(logger, plan["k"], flt, sample_rate) if session else trace_calls(logger, plan["k"], flt, sample_rate)
+    with cm:
         tracer = sys.getprofile()
         D.run_top(top)
         # state of the tracer when every op has run (handles may still be suspended)
